@@ -11,6 +11,8 @@
 #define protected public
 #include "vx_harness.h"
 #include <blocc/statement_for.h>
+#include <blocc/statement_forall.h>
+#include <blocc/collection.h>
 #include <blocc/statement_while.h>
 #include <blocc/statement_if.h>
 #include <blocc/expression_variable.h>
@@ -30,8 +32,9 @@ static bool body_writes[6]; static long body_newval[6];
 namespace bloc {
 int Executable::run(Context& ctx, const std::list<const Statement*>&) {
   int k = body_runs < 6 ? body_runs : 5;
-  seen[k] = *ctx.loadVariable(0).integer();
-  if (body_writes[k]) *ctx.loadVariable(0).integer() = body_newval[k];
+  Value& itv = ctx.loadVariable(0).deref_value();
+  seen[k] = *itv.integer();
+  if (body_writes[k]) *itv.integer() = body_newval[k];
   if (body_action[k] == 1) ctx.breakCondition(true);
   else if (body_action[k] == 2) ctx.continueCondition(true);
   else if (body_action[k] == 3) ctx.returnCondition(true);
@@ -183,4 +186,71 @@ extern "C" void c06_for_run()
   if (body_runs > 2) verif_assert(seen[2] == (desc ? b - 2 * s : b + 2 * s), "C06: progression first, first+-step, ... (3)");
   if (body_runs > 3) verif_assert(seen[3] == (desc ? b - 3 * s : b + 3 * s), "C06: progression first, first+-step, ... (4)");
   verif_assert(ctx.topControl() == nullptr && !sv.safety() && !ctx.breakCondition(), "C06: control, constraint and break released after the loop");
+}
+
+// K2a: FORALLStatement::finalizeControl from an arbitrary iteration record: whatever route leaves the loop
+// (end, break, return, error unstacking) goes through it; iterator type / safety / lock and the table's lock
+// must be the saved ones afterwards.
+extern "C" void c06_forall_final()
+{
+  static Context ctx(1, 2);
+  ctx._storage_pool.reserve(2); ctx._controlstack._stack.reserve(2);
+  Symbol& iv = ctx.registerSymbol("I", Type::INTEGER);
+  Symbol& tv = ctx.registerSymbol("T", Type(Type::INTEGER, 0, 1));
+  static FORALLStatement f;
+  f._var = new VariableExpression(iv); f._exp = new VariableExpression(tv);
+  bool it_safe = in_bool(0), it_lock = in_bool(1), ex_lock = in_bool(2);
+  /* state inside the loop body as doit() set it up */
+  iv.safety(true); iv.locked(ex_lock); tv.locked(true);
+  static Value elem{Integer(5)};
+  ctx.loadVariable(iv.id()).swap(Value(&elem).to_lvalue(true));      /* iterator is a pointer to the element */
+  FORALLStatement::RT* rt = new FORALLStatement::RT();
+  rt->target = &ctx.loadVariable(tv.id()); rt->index = in_long(0); rt->step = in_bool(3) ? 1 : -1;
+  rt->it_type_bak = Type(Type::INTEGER); rt->it_safety_bak = it_safe; rt->it_locked_bak = it_lock; rt->ex_locked_bak = ex_lock;
+  f.finalizeControl(ctx, rt);
+  VX_WITNESS();
+  verif_assert(iv._safety == it_safe && iv._locked == it_lock, "C06: leaving forall restores the iterator's own type-safety and read-only flags");
+  verif_assert(tv._locked == ex_lock, "C06: leaving forall restores the read-only lock of the iterated table");
+  Value& itv = ctx.loadVariable(iv.id());
+  verif_assert(itv.isNull() && itv.type() == Type(Type::INTEGER) && itv.lvalue(), "C06: the iterator variable no longer points into the table after the loop");
+  verif_assert(!elem.isNull() && *elem.integer() == 5, "C06: the table element is untouched by leaving the loop");
+}
+
+// K2b: first entry and re-entries of forall over a table variable of 2 integers: visit order, pointer iterator,
+// lock set while running and released at the end.
+#ifndef VX_FORDER
+#define VX_FORDER FORALLStatement::AUTO
+#endif
+static long fa_seen[4]; static int fa_runs = 0; static bool fa_locked_in_body[4]; static bool fa_write[4];
+extern "C" void c06_forall_run()
+{
+  static Context ctx(1, 2);
+  ctx._storage_pool.reserve(2); ctx._controlstack._stack.reserve(2);
+  Symbol& iv = ctx.registerSymbol("I", Type::INTEGER);
+  Symbol& tv = ctx.registerSymbol("T", Type(Type::INTEGER, 0, 1));
+  long x0 = in_long(0), x1 = in_long(1);
+  Collection::container_t c(2);
+  c[0] = Value(Integer(x0)); c[1] = Value(Integer(x1));
+  c[0].to_lvalue(true); c[1].to_lvalue(true);
+  ctx.storeVariable(tv.id(), Value(new Collection(Type(Type::INTEGER, 0, 1), std::move(c))));
+  static FORALLStatement f, nextstmt;
+  static std::list<const Statement*> none;
+  f._var = new VariableExpression(iv); f._exp = new VariableExpression(tv); f._exec = new Executable(ctx, none);
+  f._order = VX_FORDER; f._next = &nextstmt;
+  body_writes[0] = in_bool(0); body_newval[0] = in_long(2);
+  const Statement* nx = &f;
+  try {
+    nx = f.doit(ctx);
+    if (nx == &f) nx = f.doit(ctx);
+    if (nx == &f) nx = f.doit(ctx);
+  } catch (...) { verif_assert(false, "C01: forall over a table variable raises nothing"); return; }
+  VX_WITNESS();
+  bool desc = VX_FORDER == FORALLStatement::DESC;
+  verif_assert(nx == &nextstmt && body_runs == 2, "C06: forall visits every element exactly once");
+  verif_assert(seen[0] == (desc ? x1 : x0) && seen[1] == (desc ? x0 : x1), "C06: forall visits in the requested order");
+  Collection* t = ctx.loadVariable(tv.id()).collection();
+  long first_now = *t->at(desc ? 1 : 0).integer();
+  verif_assert(first_now == (body_writes[0] ? body_newval[0] : (desc ? x1 : x0)), "C06: a write through the iterator lands in the table element");
+  verif_assert(t->size() == 2 && ctx.topControl() == nullptr, "C06: table length unchanged, control released");
+  verif_assert(!tv._locked && !iv._locked && !iv._safety, "C06: locks and iterator constraint released after forall");
 }
